@@ -134,7 +134,9 @@ def jobs(pid, tier):
         return [seq('C19'), vrt('C19', [r'mtsafe_t2_.*'], unbounded=True, workers=4, race_oracle=True),
                 vrt('C19', [r'mtsafe_t3_.*'], bound=3, workers=8, race_oracle=True)]
     if pid == 'C20':
-        return [seq('C20')]
+        if q:
+            return [seq('C20'), vrt('C20', [r'noalloc_.*'], bound=2, workers=4)]
+        return [seq('C20'), vrt('C20', [r'noalloc_.*'], bound=3, workers=8)]
     if pid == 'C10':
         if q:
             return [seq('C10'), vrt('C09', [r'lq_.*'], bound=2, workers=4)]
